@@ -100,7 +100,7 @@ def validate(prop, repo, seed=0, jobs=None):
             else:
                 ok = False
         else:
-            if status == "silent":
+            if status == "silent" or (status == "analysis-error" and prop in (v.get("allow_error_for") or [])):
                 n_silent += 1
             else:
                 ok = False
@@ -136,7 +136,7 @@ def main(argv=None):
     bad = 0
     for (prop, _, v), (vid, status, msg, found) in zip(todo, results):
         want = "fired" if v["kind"] == "seeded" else "silent"
-        good = status == want or status == "skipped" or (status == "analysis-error" and v.get("allow_error"))
+        good = status == want or status == "skipped" or (status == "analysis-error" and (v.get("allow_error") or prop in (v.get("allow_error_for") or [])))
         if good and status == "fired" and v.get("rules") and not (set(v["rules"]) & {r for r, _, _ in found}):
             good = False
         if not good:
